@@ -78,14 +78,18 @@ def template(delays, kind, guard1, nested):
     o = {"on": {"BACK": "w", "SLOW": {"actions": ["slow"]}}}
     states = {"w": w, "o": o}
     ctx = {"d%d" % k: d for k, d in enumerate(delays)}
-    if nested:
+    if nested == "compound":
+        # the timers' owner is itself a compound state (never a leaf of the configuration)
+        w["initial"] = "in"
+        w["states"] = {"in": {"on": {"INNER": "in2"}}, "in2": {}}
+    if nested is True:
         top = {"p": {"initial": "w", "states": states, "on": {"REP": {"target": "p", "reenter": True}}}}
         init = "p"
     else:
         top = states
         init = "w"
     for k in range(len(delays)):
-        top["t%d" % k] = {"on": {"BACK": "#m.p.w" if nested else "w"}}
+        top["t%d" % k] = {"on": {"BACK": "#m.p.w" if nested is True else "w"}}
     cfg = {"id": "m", "initial": init, "context": ctx, "states": top}
     return cfg, dlogic
 
@@ -293,7 +297,7 @@ def run_async(res, delays, kind, guard1, nested, script, tmpl, idle, wit, order_
             elif op == "ctx":
                 it.context.update(arg)
                 log.add("ctx", arg)
-            log.add("census", observe.live_timers(it).get("m.p.w" if nested else "m.w", 0),
+            log.add("census", observe.live_timers(it).get("m.p.w" if nested is True else "m.w", 0),
                     any(s.endswith(".w") for s in config_of(it)))
         pre = [asyncio.ensure_future(op_task(*o)) for o in script] if order_flip else []
         await it.start()
@@ -301,7 +305,7 @@ def run_async(res, delays, kind, guard1, nested, script, tmpl, idle, wit, order_
         horizon = (max([o[0] for o in script] + [0]) + 6 * max(delays) + 200) / 1e3
         await asyncio.sleep(horizon)
         await asyncio.gather(*tasks, return_exceptions=True)
-        log.add("census", observe.live_timers(it).get("m.p.w" if nested else "m.w", 0),
+        log.add("census", observe.live_timers(it).get("m.p.w" if nested is True else "m.w", 0),
                 it.status == "running" and any(s.endswith(".w") for s in config_of(it)))
         t_end = loop.time()
         if it.status != "stopped":
@@ -380,7 +384,7 @@ def run_sync(res, delays, kind, guard1, nested, script, tmpl, idle, wit):
                     it.stop()
                     if stopped is None:
                         stopped = time.monotonic() - t0
-            wkey = "m.p.w" if nested else "m.w"
+            wkey = "m.p.w" if nested is True else "m.w"
             log.add("census", observe.live_timers(it).get(wkey, 0),
                     it.status == "running" and any(x.endswith(".w") for x in config_of(it)))
         horizon = (max([o[0] for o in script] + [0]) + 25 * max(delays) + 350) / 1e3
@@ -457,6 +461,62 @@ def random_script(rng, D):
     return ops
 
 
+def sync_expiry_behind_slow_action(res, mode, slow_ms, delay_ms, act_at_ms):
+    """Sync engine, real threads: a timer expires while a slow action of the same machine is still
+    running on another thread, so the expiry can only be queued behind it; before the action returns
+    the harness either stops the interpreter or queues LEAVE.  Neither a stopped interpreter nor a
+    state that was left may run the delayed transition."""
+    import threading
+    import time
+    log = []
+    gate = threading.Event()
+
+    def slow(i, c, e, a):
+        gate.set()
+        time.sleep(slow_ms / 1e3)
+        log.append(("slow-end", time.monotonic()))
+    cfg = {"id": "m", "initial": "w", "states": {
+        "w": {"after": {str(delay_ms): {"target": "t", "actions": ["fired"]}},
+              "on": {"SLOW": {"actions": ["slow"]}, "LEAVE": "o"}},
+        "o": {}, "t": {}}}
+    m = create_machine(cfg, logic=MachineLogic(actions={
+        "slow": slow, "fired": lambda i, c, e, a: log.append(("fired", time.monotonic(), i.status))}))
+    it = SyncInterpreter(m).start()
+    th = threading.Thread(target=lambda: it.send("SLOW"), name="xsv-slow-sender", daemon=True)
+    th.start()
+    gate.wait(2.0)
+    time.sleep(act_at_ms / 1e3)          # the timer has expired by now: its event is queued
+    t_act = time.monotonic()
+    if mode == "stop":
+        it.stop()
+    else:
+        it.send("LEAVE")                 # queued behind the running macrostep, ahead of nothing
+    t_ret = time.monotonic()
+    th.join(3.0)
+    time.sleep(0.03)
+    res.evaluations += 1
+    res.count("slow-action.scenarios." + mode)
+    res.hashes.add(h(["slowexp", mode, slow_ms, delay_ms, act_at_ms]))
+    fired = [r for r in log if r[0] == "fired"]
+    wit = {"mode": mode, "slow_ms": slow_ms, "delay_ms": delay_ms, "act_at_ms": act_at_ms,
+           "config": sorted(config_of(it)), "status": it.status}
+    if mode == "stop":
+        if fired:
+            res.violation("C08:queued-expiry-processed-after-stop/sync",
+                          "the delayed transition ran %.1f ms after stop() was called (status then %s)" % (
+                              (fired[0][1] - t_act) * 1e3, fired[0][2]), wit)
+        elif "m.t" in config_of(it):
+            res.violation("C08:queued-expiry-processed-after-stop/sync", "configuration moved to t", wit)
+    else:
+        # expiry was queued BEFORE LEAVE: it is processed first, while w is still active -> must fire
+        if len(fired) != 1 and act_at_ms > delay_ms + 8:
+            res.violation("C08:expiry-queued-before-leave-lost/sync",
+                          "expiry queued %d ms before LEAVE fired %d times" % (act_at_ms - delay_ms, len(fired)),
+                          wit)
+    if it.status != "stopped":
+        it.stop()
+
+
 def run_chunk(spec):
     observe.quiet_logs()
     observe.install_task_wrappers()
@@ -468,12 +528,12 @@ def run_chunk(spec):
     for delays in ([10], [10, 17], [7, 7]):
         for kind in ("int", "str", "named", "callable"):
             for guard1 in (False, True):
-                for nested in (False, True):
+                for nested in (False, True, "compound"):
                     variants.append((delays, kind, guard1, nested))
     jobs = []
     for vi, (delays, kind, guard1, nested) in enumerate(variants):
         tmpl = "%s-%s%s%s" % ("+".join(map(str, delays)), kind, "-guard" if guard1 else "",
-                              "-nested" if nested else "")
+                              "-nested" if nested is True else ("-compound" if nested else ""))
         for name, script in grid_scripts(delays[0]):
             if name == "guard-false-at-expiry" and not guard1:
                 continue
@@ -487,7 +547,7 @@ def run_chunk(spec):
         jobs.append(("async", delays, kind, guard1, nested, None, "random", False))
     # sync: real time, fewer
     sync_variants = [([20], "int", False, False), ([20, 31], "named", False, True),
-                     ([25], "callable", True, False)]
+                     ([25], "callable", True, False), ([20], "str", False, "compound")]
     for delays, kind, guard1, nested in sync_variants:
         for name, script in grid_scripts(delays[0]):
             if name.startswith(("nop@", "self@-1", "self@+1")) and tier == "quick":
@@ -520,6 +580,12 @@ def run_chunk(spec):
         if n < 1 and ci == 0 and script:
             res.sample(wit)
             n += 1
+    scen = [(mode, slow, d, at) for mode in ("stop", "leave") for slow in (60, 90) for d in (10, 20)
+            for at in (d + 15, d + 30)]
+    for si, sc in enumerate(scen * (1 if tier == "quick" else 6)):
+        if si % NCHUNKS == ci:
+            wd.arm("slow-action scenario %r" % (sc,))
+            sync_expiry_behind_slow_action(res, *sc)
     wd.disarm()
     for k, v in observe.WRAP_COUNTS.items():
         res.count("wrapper." + k, v)
@@ -530,6 +596,7 @@ def quota(counters, tier):
     out = []
     for k in ("schedules.async", "schedules.sync", "arms", "firings", "census.samples",
               "schedules.near-deadline", "schedules.with-leave-or-reentry", "wrapper.after_timer",
+              "slow-action.scenarios.stop", "slow-action.scenarios.leave",
               "computed-delay.checked",
               "wrapper.schedule_state_tasks"):
         if counters.get(k, 0) == 0:
